@@ -216,3 +216,16 @@ def zdiv(a: float, b: float) -> float:
 def zdiv_late(a: float, b: float, t: float) -> float:
     """Fine at t=0, raises ZeroDivisionError during the integration when b == 0."""
     return 0.0 if t <= 0.05 else float(a) / float(b)
+
+
+# power-law rate laws (control analysis); kinetic orders are parameters
+def pl0(k: float) -> float:
+    return k
+
+
+def pl1(k: float, x: float, n: float) -> float:
+    return k * x**n
+
+
+def pl2(k: float, x: float, nx: float, y: float, ny: float) -> float:
+    return k * x**nx * y**ny
